@@ -109,6 +109,9 @@ def run_config(cfg, shapes, quick, seed, part, full_grid_shapes=()):
         samples = pb.make_samples(theta)  # s column in km/s
         case0 = dict(kind="cell", cfg=cfg, shape=sh)
         outs = {}
+        dlist = data if isinstance(data, list) else [data]
+        snap = [(np.array(d._t_bmjd).copy(), np.array(d.rv.value).copy(), np.array(d.rv_err.value).copy(), float(d._t_ref_bmjd)) for d in dlist]
+        ssnap = {k: np.array(samples[k].value).copy() for k in samples.par_names}
         try:
             outs["inmem"] = np.array(joker.marginal_ln_likelihood(data, samples, in_memory=True))
             if si % 2 == 0 or not quick:
@@ -120,6 +123,14 @@ def run_config(cfg, shapes, quick, seed, part, full_grid_shapes=()):
         except Exception as e:
             part.violation(case0, f"marginal_ln_likelihood raised on a valid input: {type(e).__name__}: {str(e)[:300]}")
             continue
+        for d, (t0_, v0_, e0_, r0_) in zip(dlist, snap):
+            if not (np.array_equal(d._t_bmjd, t0_) and np.array_equal(d.rv.value, v0_) and np.array_equal(d.rv_err.value, e0_) and float(d._t_ref_bmjd) == r0_):
+                part.violation(case0, "marginal_ln_likelihood modified the data object it was given")
+                break
+        for k, v in ssnap.items():
+            if not np.array_equal(np.array(samples[k].value), v):
+                part.violation(case0, f"marginal_ln_likelihood modified column {k} of the samples it was given")
+                break
         # theta in the *data's* unit for the reference (jitter column)
         th_ref = theta.copy()
         th_ref[:, 4] *= dd["factor"]
